@@ -17,6 +17,32 @@ BASELINE = (
 )
 
 
+TECHNIQUE = {
+    "C01": "runtime monitoring: single-valuedness checker over in-process call histories and cross-process transcripts (child interpreters with hostile environments)",
+    "C02": "runtime monitoring: differential oracle (independent reference router) over exhaustive small-scope and generated programs, one label per return statement",
+    "C03": "runtime monitoring: exact-rational partition oracle over real ids, golden MD5-preimage boundary ids and substituted hash positions (attribute-rebinding probe)",
+    "C04": "runtime monitoring: offline statistical checker (chi-square goodness of fit + independence, alpha 1e-9) over recorded assignment counts of generated id populations",
+    "C05": "runtime monitoring: per-literal micro-programs judged by the reference lexer's reading; value/type assertions on returned groups; hash-key probe for salts",
+    "C06": "runtime monitoring: token-mutation workload judged by an independent three-valued recogniser (raises vs returns observed at the client boundary)",
+    "C07": "runtime monitoring: outcome-class monitor (group member or unroutable error) over generated sentences, identifier pools and size-limit shapes",
+    "C08": "runtime monitoring: metamorphic monitor (trivia variants of one token sequence) with behavioural fingerprint and choice-function probe",
+    "C09": "runtime monitoring: metamorphic pair checker (equal / must-differ / must-raise relations) plus hashed-key probe",
+    "C10": "runtime monitoring: relational checker over results of one unit under many weight vectors (ramp monotonicity, interval intersection in exact rationals) plus hash probe",
+    "C11": "runtime monitoring: operation-history checker against an executable sequential model (fresh evaluator of the last accepted text), exhaustive short histories + random",
+    "C12": "runtime monitoring: differential against an independent implementation of the published scheme, fixed known answers, golden ids",
+    "C13": "runtime monitoring: harmless-twin differential with masked-AST comparison, sys.monitoring CALL events from generated code, builtins sentinels and audit hooks",
+    "C14": "runtime monitoring: translation validation by execution (exec of generated module text vs in-memory evaluator) over generated programs, both layouts",
+    "C15": "runtime monitoring: totality monitor over value classes (outcome membership, v vs str(v) metamorphic relation, range assertion on the position function)",
+    "C16": "runtime monitoring: icontract postconditions/snapshots on the real function + related-call driver + chi-square check of the random branch",
+    "C17": "runtime monitoring: multi-thread stress with 1 us switch interval and sys.monitoring LINE-event yield injection, results compared with sequential reference; overlap evidence recorded",
+    "C18": "runtime monitoring: icontract contracts on the real helpers + grid driver (textbook formulas, monotonicity pairs, stdlib normal quantile)",
+}
+LEVEL = (
+    "exploration: the real code is executed on generated / enumerated workloads while an oracle observes; the verdict is "
+    "'held on the K executions observed' (K and the classes covered are in the evidence file), never a proof. "
+)
+
+
 def main():
     checks, na = [], []
     for i in range(1, 19):
@@ -39,11 +65,11 @@ def main():
                 engine="pyabv",
                 level_claimed=dict(
                     category="exploration",
-                    text=getattr(mod, "LEVEL_TEXT", "runtime monitoring of generated executions; held on what was observed"),
+                    text=LEVEL + getattr(mod, "RULE", ""),
                     design_ref=f"DESIGN.md section 3, {pid}",
                 ),
                 level_note=getattr(mod, "LEVEL_NOTE", "; ".join(getattr(mod, "ASSUMPTIONS", []))),
-                technique=getattr(mod, "TECHNIQUE", "runtime monitoring: oracle over observed executions of the real code"),
+                technique=TECHNIQUE[pid],
             )
         )
     manifest = dict(
